@@ -219,6 +219,11 @@ def oracle(ctx, extra):
             "samples": [json.dumps(cases[0]["doc"])]}
 
 
+def check_known(ctx, k):
+    out = ctx.mistune.create_markdown()(k["input"])
+    return 'href="/u0"' in out and 'href="/u1"' not in out
+
+
 def classify(f, known):
     for k in known:
         if k["id"] == f.get("class"):
